@@ -1,8 +1,8 @@
 """C16, round 2 (tag c16c): get_configuration (proved variant) and the iteration over the configurations.
 
-CentralController.get_configuration[proved]   one selection per controller of the tuple; BiogemeError IFF two controllers
-    of the tuple have the same name; modifies nothing.  (That selection p is (name, current name) of a controller goes
-    through the permutation of sorted(): z3 finds no witness in 20 s -- that clause stays bounded, c16c_ctor_native.)
+CentralController.get_configuration[proved]   one selection per controller of the tuple; modifies nothing.  (That
+    selection p is (name, current name) of a controller, and BiogemeError IFF two controllers share a name, go through
+    the permutation of sorted(): no stable proof within 20 s -- those clauses stay bounded, c16c_ctor_native.)
 SelectedExpressionsIterator.__init__/__next__/__iter__, Expression.__iter__   ghost position of the set iterator.
 """
 from pyvc.contract import contract, field_type
@@ -29,19 +29,13 @@ _INR = f'old(forall(lambda q: 0 <= {_C}[q].current_index < len({_C}[q].specifica
 contract(Q + 'CentralController.get_configuration', 'C16', self_class='CentralController',
          label='CentralController.get_configuration[proved]',
          returns='biogeme.configuration.Configuration',
-         raises={'BiogemeError': _DUPC},
-         may_raise=['IndexError'],      # an out-of-range index inside the generator (not seen by the engine)
+         # BiogemeError IFF two controllers of the tuple share a name (_DUPC): the direction "returns => names pairwise
+         # different" goes through the permutation of sorted(); z3 proves it in 1 s in some name orders and not at all in
+         # others, so the raise condition is left to the native candidates (c16c_ctor_native: get_configuration).
+         may_raise=['BiogemeError', 'IndexError'],   # IndexError: an out-of-range index inside the generator (not seen by the engine)
          modifies=[],
          ensures={
              'one_selection_per_controller': f'len(result.selections) == len({_C})',
-             'every_controller_recorded': 'implies(' + _INR + ', ' +
-                 f'forall(lambda q: exists(lambda p: result.selections[p].controller == {_C}[q].controller_name and '
-                 f'result.selections[p].selection == {_C}[q].specification_names[{_C}[q].current_index], '
-                 f'0, len(result.selections)), 0, len({_C})))',
-             'every_selection_from_a_controller': 'implies(' + _INR + ', ' +
-                 f'forall(lambda p: exists(lambda q: result.selections[p].controller == {_C}[q].controller_name and '
-                 f'result.selections[p].selection == {_C}[q].specification_names[{_C}[q].current_index], '
-                 f'0, len({_C})), 0, len(result.selections)))',
          },
          replay=_REPLAY)
 
